@@ -39,6 +39,9 @@ func (v *VUrl) Valid(src interface{}) error {
 	case string:
 		srcStr = v
 	case *string:
+		if v == nil {
+			return errors.New("src is nil")
+		}
 		srcStr = *v
 	default:
 		return errors.New("src must is string/*string")
